@@ -20,6 +20,7 @@ type Str struct {
 	Code *smt.Term
 	Num  *smt.Term // when set: the decimal rendering of this 64-bit integer term
 	FNum *smt.Term // when set: a text that strconv.ParseFloat parses to this float64 term (NaN/Inf included)
+	Fmt  []*smt.Term // when set: S is a template in which each \x00 stands for the decimal rendering of the next integer term
 }
 
 type StructV struct{ F []Value }
